@@ -52,6 +52,9 @@ type Scen struct {
 	Relays  []RelaySpec `json:"relays,omitempty"`
 	Spaces  int         `json:"spaces"`
 	Rounds  []Round     `json:"rounds"`
+	// KeepaliveUs > 0: the pools' connections ping every KeepaliveUs microseconds (default: 29 s), so that stops and
+	// drops keep landing on keepalive ticks (pool side) and on pongs (dialling side)
+	KeepaliveUs int `json:"keepalive_us,omitempty"`
 }
 
 func (s *Scen) hash() uint64 {
@@ -202,6 +205,9 @@ func genInject(rng *vh.Rng, class string, sc *Scen, thorough bool) (Round, bool)
 func genScen(root *vh.Rng, idx int, thorough bool) *Scen {
 	rng := root.Derive("scen", idx)
 	sc := &Scen{Idx: idx, Spaces: rng.Range(1, 3)}
+	if kr := root.Derive("keepalive", idx); kr.Chance(1, 3) {
+		sc.KeepaliveUs = kr.Range(200, 3000)
+	}
 	sc.NLocal = rng.Range(1, 3)
 	switch idx % 3 {
 	case 0:
